@@ -318,6 +318,10 @@ def templ_inst(ctx, work):
                 if not isinstance(a, str):
                     bad_cases[(n, qi)] = a
                     continue
+                if "ns1::" in rt(r, n) or "ns2::" in rt(r, n):
+                    # the -p interface names a type from the scope it is declared in (ns2::K is shown as K):
+                    # such results are judged through the database view only
+                    continue
                 lines.append("static_assert(std::is_same<%s, %s>::value, \"\");" % (rt(q, n), a))
                 owner[len(lines)] = (n, qi)
                 compared += 1
@@ -333,30 +337,41 @@ def templ_inst(ctx, work):
         for n, prog, qs in batch:
             if n in rej:
                 continue
-            pub.append((n, 0))
-        fn = "tq%03d.h" % bi
-        open(os.path.join(work, fn), "w").write('#include "%s"\n__begin_publish\n%s\n__end_publish\n' % (
-            hdr, "\n".join("%s r%d_%d();" % (rt(dict((c[0], c) for c in batch)[n][2][qi][0], n), n, qi) for n, qi in pub)))
+            # up to three queries per program, those whose result names a namespace member first
+            order = sorted(range(len(qs)), key=lambda qi: (0 if "ns" in rt(qs[qi][1], n) else 1, qi))
+            for qi in order[:3]:
+                pub.append((n, qi))
+        byn = dict((c[0], c) for c in batch)
         protos = {}
-        dbfail = None
-        if pub and not rej:
-            rr = run.run_tool("interrogate", ["-od", "tq%03d.in" % bi, "-oc", "tq%03d.cxx" % bi, "-module", "m", "-library", "l",
+        dbfail = []                    # [((n, qi), stderr)]: single functions interrogate does not get through
+        cnt3 = [0]
+
+        def publish(items):
+            cnt3[0] += 1
+            fn = "tq%03d_%03d.h" % (bi, cnt3[0])
+            open(os.path.join(work, fn), "w").write('#include "%s"\n__begin_publish\n%s\n__end_publish\n' % (
+                hdr, "\n".join("%s r%d_%d();" % (rt(byn[n][2][qi][0], n), n, qi) for n, qi in items)))
+            rr = run.run_tool("interrogate", ["-od", fn[:-2] + ".in", "-oc", fn[:-2] + ".cxx", "-module", "m", "-library", "l",
                                               "-c", "-fnames", fn], cwd=work, timeout=600)
-            if rr.rc != 0:
-                dbfail = rr.stderr[-400:]
-            else:
-                db = idb.dump([os.path.join(work, "tq%03d.in" % bi)])
-                for f in db.get("functions", {}).values():
-                    m = re.match(r"r(\d+)_(\d+)$", f["name"])
-                    if m:
-                        protos[(int(m.group(1)), int(m.group(2)))] = f["prototype"].strip()
+            if rr.rc != 0 or rr.timed_out:
+                if len(items) == 1:
+                    dbfail.append((items[0], "rc=%s signal=%s timeout=%s %s" % (rr.rc, rr.signal, rr.timed_out, rr.stderr.strip()[-300:])))
+                return False
+            db = idb.dump([os.path.join(work, fn[:-2] + ".in")])
+            for f in db.get("functions", {}).values():
+                m = re.match(r"r(\d+)_(\d+)$", f["name"])
+                if m:
+                    protos[(int(m.group(1)), int(m.group(2)))] = f["prototype"].strip()
+            return True
+        if pub and not rej:
+            run.isolate(pub, publish, max_singletons=30)
+        failed3 = set(k for k, _ in dbfail)
         lines = ["#include <type_traits>", '#include "%s"' % hdr]
         owner3, bad3, missing3 = {}, {}, []
-        byn = dict((c[0], c) for c in batch)
         for n, qi in pub:
             p = protos.get((n, qi))
             if p is None:
-                if not dbfail and not rej:
+                if (n, qi) not in failed3 and not rej:
                     missing3.append((n, qi))
                 continue
             m = re.match(r"(.*?)\s*\b(?:r%d_%d)\(" % (n, qi), p)
@@ -402,8 +417,13 @@ def templ_inst(ctx, work):
         for n, qi in missing3:
             prog, (q, r) = byn[n][1], byn[n][2][qi]
             stats["db_missing"] = stats.get("db_missing", 0) + 1
-        if dbfail:
-            ctx.violation("interrogate failed on templates parse_file accepts: %s" % dbfail[-200:], dict(stat_key="templ-interrogate-fail"))
+        for (n, qi), info in dbfail:
+            prog, (q, r) = byn[n][1], byn[n][2][qi]
+            ctx.violation("interrogate fails on a function returning a template member type (%s): %s   %s r();" % (
+                info[-250:], " ".join(render_prog(n, prog, n % 3 == 0)), rt(q, n)),
+                dict(program=render_prog(n, prog, n % 3 == 0), query=rt(q, n), info=info, view="database",
+                     stat_key="templ-interrogate-fail " + " ".join(feats(prog, q))),
+                classes=templ_classes(n, prog, q))
         for n, prog, qs in batch:
             for q, r in qs:
                 for c in templ_classes(n, prog, q):
@@ -474,9 +494,93 @@ def expansions(prog, q):
     return order, res
 
 
+def _walk_terms(prog):
+    """(owner template, slot, term) for every definition of the program"""
+    dflt, defs, alias = prog
+    for T in "PQR":
+        for s in ("m1", "m2"):
+            if defs[T][s][0] != "none":
+                yield T, s, defs[T][s]
+    if alias[0] != "none":
+        yield "V", "alias", alias
+    if dflt[0] != "none":
+        yield "P", "dflt", dflt
+
+
+def _subterms(t):
+    yield t
+    k = t[0]
+    if k in ("ptr", "ref", "c", "m"):
+        for x in _subterms(t[1]):
+            yield x
+    elif k == "t":
+        for a in t[2]:
+            for x in _subterms(a):
+                yield x
+
+
+def self_and_named(prog):
+    """Templates T that use the injected class name in a member AND are named with explicit arguments somewhere in the
+    program (in their own body with other arguments, in another template's body, in the alias or the default).
+    Input predicate of C06-templ-injected-name-partial."""
+    selfs = set(T for T, s, t in _walk_terms(prog) if any(x[0] == "self" for x in _subterms(t)))
+    named = set(x[1] for T, s, t in _walk_terms(prog) for x in _subterms(t) if x[0] == "t")
+    return selfs & named
+
+
+def traits_in_argument(prog):
+    """a template-id one of whose arguments contains  typename <parameter>::t  — input predicate of
+    C06-templ-traits-in-argument"""
+    for T, s, t in _walk_terms(prog):
+        for x in _subterms(t):
+            if x[0] == "t":
+                for a in x[2]:
+                    if any(y[0] == "m" and y[1][0] == "p" for y in _subterms(a)):
+                        return True
+    return False
+
+
+def mutual_projection(prog):
+    """templates T whose member projects (typename U<...>::m) out of another template U that in turn names T —
+    input predicate of C06-templ-mutual-instantiation"""
+    dflt, defs, alias = prog
+    out = set()
+    for T, s, t in _walk_terms(prog):
+        for x in _subterms(t):
+            if x[0] == "m" and x[1][0] == "t" and x[1][1] != T and x[1][1] in "PQR":
+                U = x[1][1]
+                for s2 in ("m1", "m2"):
+                    b = defs[U][s2]
+                    if b[0] != "none" and any(y[0] == "t" and y[1] == T for y in _subterms(b)):
+                        out.add(T)
+    return out
+
+
+def default_names_own_template(prog):
+    """P's default argument names P itself and a definition relies on that default — C06-templ-default-names-own-template"""
+    dflt = prog[0]
+    if dflt[0] == "none" or not names_tmpl(dflt, "P"):
+        return False
+    return any(x[0] == "t" and x[1] == "P" and len(x[2]) == 1 for T, s, t in _walk_terms(prog) for x in _subterms(t))
+
+
 def templ_classes(n, prog, q):
     """finding classes of (case number, program, query) — input predicates only"""
     out = []
+    if q is not None:
+        mp = mutual_projection(prog)
+        if mp:
+            order0, _ = expansions(prog, q)
+            if set(T for T, s in order0) & (mp | set("PQR")) and any(T in mp for T, s in order0):
+                out.append("C06-templ-mutual-instantiation")
+        if default_names_own_template(prog):
+            out.append("C06-templ-default-names-own-template")
+        order, _ = expansions(prog, q)
+        used = set(T for T, s in order)
+        if self_and_named(prog) & used and len(order) >= 2:
+            out.append("C06-templ-injected-name-partial")
+        if traits_in_argument(prog) and len(order) >= 2:
+            out.append("C06-templ-traits-in-argument")
     hits = shared_name_uses(n, prog)
     if hits:
         if q is None:
